@@ -19,7 +19,9 @@
 #define CELMA_LOG_DETAIL_LOG_ATTRIBUTES_CONTAINER_HPP
 
 
+#include <cstdint>
 #include <string>
+#include <tuple>
 #include <vector>
 #include <boost/lexical_cast.hpp>
 
@@ -42,6 +44,9 @@ namespace celma { namespace log { namespace detail {
 class LogAttributesContainer
 {
 public:
+   /// Type of the id that identifies one entry in the container.
+   using attr_id_t = uint64_t;
+
    /// Default constructor.
    /// @since  0.3, 16.03.2018
    LogAttributesContainer() = default;
@@ -60,8 +65,13 @@ public:
    ///    The name of the attribute.
    /// @param[in]  attr_value
    ///    The value of the attribute.
+   /// @return
+   ///    The id of the new entry, unique within this container. Can be used
+   ///    to remove exactly this entry again, see removeAttributeEntry().
+   /// @since  1.47.0, 30.09.2026  (returns the id of the entry)
    /// @since  1.15.0, 19.06.2016
-   void addAttribute( const std::string& attr_name, const std::string& attr_value);
+   attr_id_t addAttribute( const std::string& attr_name,
+      const std::string& attr_value);
 
    /// Adds an attribute with "any" type to the internal list of attributes.<br>
    /// The type of the attribute value must be convertible to string.
@@ -72,9 +82,11 @@ public:
    ///    The name of the attribute.
    /// @param[in]  attr_value
    ///    The value of the attribute.
+   /// @return  The id of the new entry, unique within this container.
+   /// @since  1.47.0, 30.09.2026  (returns the id of the entry)
    /// @since  1.15.0, 19.06.2016
    template< typename T>
-      void addAttribute( const std::string& attr_name, T value);
+      attr_id_t addAttribute( const std::string& attr_name, T value);
 
    /// Returns the value for the given attribute.<br>
    /// If no attribute with the given name is found, an empty string is
@@ -112,14 +124,26 @@ public:
    /// @since  1.15.0, 20.03.2018
    void removeAttribute( const std::string& attr_name);
 
+   /// Removes exactly the entry with the given id, no matter which attributes
+   /// with the same name were added or removed in the meantime.<br>
+   /// Does nothing if the entry does not exist anymore.
+   ///
+   /// @param[in]  attr_id
+   ///    The id of the entry to erase, as returned by addAttribute().
+   /// @since  1.47.0, 30.09.2026
+   void removeAttributeEntry( attr_id_t attr_id);
+
 private:
-   /// Value type stored in the internal container.
-   using attr_pair_t = std::pair< std::string, std::string>;
+   /// Value type stored in the internal container: name, value, id of the
+   /// entry.
+   using attr_entry_t = std::tuple< std::string, std::string, attr_id_t>;
    /// Type of the internal container where the attributes are stored.
-   using attr_cont_t = std::vector< attr_pair_t>;
+   using attr_cont_t = std::vector< attr_entry_t>;
 
    /// The container in which the attributes and their values are stored.
    attr_cont_t  mAttributes;
+   /// The id for the next entry.
+   attr_id_t    mNextId = 0;
 
 }; // LogAttributesContainer
 
@@ -129,9 +153,10 @@ private:
 
 
 template< typename T>
-   void LogAttributesContainer::addAttribute( const std::string& attr_name, T value)
+   LogAttributesContainer::attr_id_t
+      LogAttributesContainer::addAttribute( const std::string& attr_name, T value)
 {
-   addAttribute( attr_name, boost::lexical_cast< std::string>( value));
+   return addAttribute( attr_name, boost::lexical_cast< std::string>( value));
 } // LogAttributesContainer::addAttribute
 
 
